@@ -406,6 +406,12 @@ func init() {
 			{Scenario: "replay.concurrent", Params: vx.P("threads", "2", "crosscheck", "1"), Bound: 3, Weight: 5},
 			{Scenario: "replay.concurrent", Params: vx.P("threads", "2", "variant", "1"), Bound: -1, Weight: 5},
 			{Scenario: "replay.concurrent", Params: vx.P("threads", "2", "atcleanup", "1"), Bound: b(2, 4), Weight: 5},
+			// a replay delivered slowly across a clean-up, through the dispatcher
+			{Scenario: "replay.slow", Params: vx.P("lead", "170"), Bound: 0, Weight: 4},
+			{Scenario: "replay.slow", Params: vx.P("lead", "179"), Bound: 0, Weight: 4},
+			{Scenario: "replay.slow", Params: vx.P("lead", "0"), Bound: 0, Weight: 4},
+			// the server program itself (ck-server's main) listening on two ports, one handshake on both at once
+			{Scenario: "srvmain.replay", Bound: b(2, 3), Weight: 6},
 		}
 		for i := range jobs {
 			jobs[i].BudgetS = b(100, 900)
